@@ -111,6 +111,9 @@ def generate(tier, seed):
                 sd = int(rng.integers(1, 4)) if cfg in ("plain", "temporal") else 2
                 cases.append(("history", {"name": name, "cfg": cfg, "spatial_dim": sd, "hseed": int(rng.integers(1 << 30)),
                                           "nops": int(rng.integers(2, 7))}))
+    for name in common.TPL:
+        for rep in range(max(2, n // 4)):
+            cases.append(("coupled_bounds", {"name": name, "dim": int(rng.integers(1, 4)), "kseed": int(rng.integers(1 << 30))}))
     for name in common.MODELS:
         for rep in range(max(1, n // 6)):
             cases.append(("construct", {"name": name, "dim": int(rng.integers(1, 4)), "kseed": int(rng.integers(1 << 30))}))
@@ -629,6 +632,68 @@ def check_bounds(ctx, c):
         ctx.fail({"what": "class-invariant", "model": name}, inv)
 
 
+def check_coupled_bounds(ctx, c):
+    """Truncated power law models: the variance follows hurst / len_low / len_scale; with user bounds on the variance an
+    assignment of one of those is accepted iff the *resulting* variance is inside them, and a refused one changes nothing."""
+    rng = np.random.default_rng(c["kseed"])
+    name, dim = c["name"], c["dim"]
+    with warnings.catch_warnings():
+        warnings.simplefilter("ignore")
+        model = _build(name, dict(dim=dim, len_scale=round(float(rng.uniform(1, 4)), 3), hurst=round(float(rng.uniform(0.3, 0.6)), 3)))
+    ctx.cell(f"coupled_bounds/{name}")
+    v0 = float(model.var)
+    hi = v0 * float(rng.uniform(1.2, 2.0))
+    try:
+        model.set_arg_bounds(var=[0.0, hi, "oc"])
+    except ValueError as exc:
+        ctx.fail({"what": "valid-bounds-rejected", "model": name}, f"var bounds [0, {hi}] rejected at var={v0}: {exc}")
+        return
+    for step in range(4):
+        arg = str(rng.choice(["hurst", "len_low", "len_scale"]))
+        cur = float(getattr(model, arg))
+        if arg == "hurst":
+            new = round(float(rng.uniform(0.15, 0.95)), 3)
+        elif arg == "len_low":
+            new = round(float(rng.choice([0.0, rng.uniform(0.1, 30.0)])), 3)
+        else:
+            new = round(float(rng.uniform(0.3, 12.0)), 3)
+        before = _state(model)
+        vraw = float(model.var_raw)
+        hh = 2 * (new if arg == "hurst" else float(model.hurst))
+        low = (new if arg == "len_low" else float(model.len_low)) / float(model.rescale)
+        up = low + (new if arg == "len_scale" else float(model.len_scale)) / float(model.rescale)
+        want_var = vraw * (up**hh - low**hh) / hh
+        margin = abs(want_var - hi) / hi
+        if margin < 1e-9:
+            continue
+        ok = want_var <= hi
+        raised = False
+        try:
+            with warnings.catch_warnings():
+                warnings.simplefilter("ignore")
+                setattr(model, arg, new)
+        except ValueError:
+            raised = True
+        ctx.event("ops_applied")
+        mech = {"what": "coupled-variance-bound", "model": name, "arg": arg}
+        after = _state(model)
+        if ok and raised:
+            ctx.fail(dict(mech, what="assignment-inside-coupled-bounds-rejected"), f"{arg}={new}: resulting var {want_var:.6g} <= {hi:.6g} but the assignment raised")
+            return
+        if not ok:
+            ctx.event("rejections_checked")
+            if not raised:
+                ctx.fail(dict(mech, what="assignment-violating-coupled-bounds-accepted"),
+                         f"{arg}={new}: resulting var {want_var:.6g} > upper bound {hi:.6g}, accepted (model.var = {float(model.var):.6g})")
+                return
+            if after != before:
+                ctx.fail(dict(mech, what="rejected-assignment-changed-model"), f"{arg}={new} raised but the model changed: { {k: (before[k], after[k]) for k in before if before[k] != after[k]} }")
+                return
+        elif not _close(float(model.var), want_var, 1e-10):
+            ctx.fail(dict(mech, what="variance-does-not-follow-its-definition"), f"after {arg}={new}: var {float(model.var)!r}, expected {want_var!r}")
+            return
+
+
 def check_construct(ctx, c):
     """Every way of stating the same parameters at construction gives the same model, and the model reports what was stated."""
     rng = np.random.default_rng(c["kseed"])
@@ -691,4 +756,4 @@ def check_construct(ctx, c):
             return
 
 
-CHECKS = {"history": check_history, "bounds": check_bounds, "construct": check_construct}
+CHECKS = {"history": check_history, "bounds": check_bounds, "construct": check_construct, "coupled_bounds": check_coupled_bounds}
